@@ -3,12 +3,10 @@
 
 pub mod bus;
 pub mod dev;
+pub mod devq;
 pub mod dynq;
 pub mod hal;
 pub mod ring;
 pub mod runner;
 pub mod world;
-pub mod props {
-    pub mod qh;
-    pub mod c01_04;
-}
+pub mod props;
